@@ -42,6 +42,7 @@ type algStats struct {
 	Ops, Ceremonies, Batches, SignaturesChecked, SharesChecked, SubsetsChecked int
 	C07Schedules, C07Races, C11Scenarios                                       int
 	CraftedBatches, PartialsChecked, FaultySignerBatches, AwayProposerBatches  int
+	C11Refed                                                                   int
 	C07Exhaustive                                                              string
 	Configs                                                                    []string
 	OutcomeHist                                                                map[string]int
